@@ -1859,6 +1859,10 @@ class UserSpaceImpl(*_user_space_impl_base):
                         is_derived=True)
 
                 elif attr == "own_refs":
+                    if name in self.model.global_refs:
+                        # The derived reference shadows the global reference
+                        self.model.clear_attr_referrers(
+                            self.model.global_refs[name])
                     selfdict[name] = ReferenceImpl(
                         self, name, None,
                         container=self._own_refs,
@@ -1931,6 +1935,9 @@ class UserSpaceImpl(*_user_space_impl_base):
         return ref
 
     def on_create_ref(self, name, value, is_derived, refmode):
+        if name in self.model.global_refs:
+            # The new reference shadows the global reference
+            self.model.clear_attr_referrers(self.model.global_refs[name])
         ref = ReferenceImpl(self, name, value,
                             container=self._own_refs,
                             is_derived=is_derived,
